@@ -218,8 +218,13 @@ def run(chk: Check, repo: Repo) -> None:
                     continue
             return False
         return seen_verify and any(isinstance(x, ast.Raise) for x in n.body) and isinstance(n.body[-1], ast.Raise)
-    guard = [n for n in ld.node.body if isinstance(n, ast.If) and is_guard(n)]
-    ok = bool(parse_nodes) and len(guard) == 1 and ld.node.body.index(guard[0]) < min(ld.node.body.index(s_) for s_ in ld.node.body if any(p_.ast is s_ or any(p_.ast is y for y in ast.walk(s_)) for p_ in parse_nodes))
+    guard = [n for n in walk_local(ld.node) if isinstance(n, ast.If) and is_guard(n)]
+    ok = bool(parse_nodes) and len(guard) == 1
+    if ok:
+        # every path to a statement that reads the file's content evaluates the guard (whose body always raises)
+        gatoms = {id(x) for x in ast.walk(guard[0].test)}
+        gtests = [n.id for n in cfg.nodes if n.kind == "test" and n.ast is not None and id(n.ast) in gatoms]
+        ok = bool(gtests) and cfg.all_paths_hit(cfg.entry, gtests, [p_.id for p_ in parse_nodes])
     chk.ob("verification-precedes-parsing", ld.site(), ok, "sync_load_keyring raises on a failed verification (of the given path and password; skipped only when validate_signature is off) before parse / parse_xml / decrypt are reached", key="load|order")
     # (d) decryption flow
     n_fields = 0
